@@ -71,7 +71,7 @@ def _fields_task(spec):
         for s in spec.get("sources", []):
             if s[0] == "plane":
                 _, cls, ax, d, gated = s
-                src, _ = K.make_plane_source(cls, shape, cfg, ax, d, T, gated=gated, complex_profile=cplx)
+                src, _ = K.make_plane_source(cls, shape, cfg, ax, d, T, gated=gated, complex_profile=cplx, h_filter=bool(spec.get("h_filter")))
             else:
                 _, st, pol, gated, rot = s
                 src, _ = K.make_dipole(shape, cfg, T, source_type=st, polarization=pol, gated=gated, rotated=rot)
@@ -188,6 +188,9 @@ def tasks(tier, seed):
             out[f"fields/{lab}/e{e}m{m}sE{se}sH{sh}"] = Task(_fields_task(dict(bnd=mixed, eps=e, mu=m, sigE=se, sigH=sh, sources=ss)), max_paths=256)
     for a in [open_, (("periodic", "periodic"),) * 3, (("pec", "pec"), ("pmc", "pmc"), ("pec", "pmc"))]:
         out[f"fields/nosrc/{K.bnd_label(a)}"] = Task(_fields_task(dict(bnd=a, eps=3, mu=3, sigE=3, sigH=3)))
+    for ss in src_sets[:2]:
+        lab = "+".join("_".join(str(x) for x in s_) for s_ in ss)
+        out[f"fields/{lab}/dispersive_H_filter"] = Task(_fields_task(dict(bnd=mixed, eps=3, mu=1, sigE=None, sigH=None, sources=ss, h_filter=True)), max_paths=256)
     out["fields/nonuniform"] = Task(_fields_task(dict(bnd=mixed, eps=3, mu=3, sigE=1, sigH=None, nonuniform=True, sources=src_sets[0])), max_paths=256)
     out["fields/bloch_complex"] = Task(_fields_task(dict(bnd=(("bloch", "bloch"), (None, None), ("pec", "pmc")), eps=3, mu=1, sigE=None, sigH=None, complex=True, sources=src_sets[0])), max_paths=256)
     out["detector/field"] = Task(_detector_task("field", {}))
